@@ -2,7 +2,7 @@
 """srcfuns.py — translator T2: small pure C++ functions of /repo  ->  Gallina terms over the numeric dictionary.
 
 For each function listed in FUNCS the clang JSON AST of its body is translated, expression by expression, into a term
-over `NumOps T` (coq/gen/SrcFuns.v, regenerated on every run).  coq/SrcTie.v then proves, for the real instance, that
+over `NumOps T` (coq/gen/SrcFuns<id>.v, one file per property, regenerated on every run).  coq/SrcTie<id>.v then proves, for the real instance, that
 each generated term equals the hand-written model function the theorems are about — so the closed-form leaves of the
 models are tied to the source *syntactically*, not only by running them: editing the C++ expression changes the
 generated term and the tie lemma has to be re-proved (it breaks when the meaning over the reals changes).
@@ -56,6 +56,17 @@ FUNCS = [
      {"tu": "template Eigen::Matrix<double, 3, 1> romea::core::rotation3DToEulerAngles<double>(const Eigen::Matrix<double, 3, 3> &);\n"}),
     ("src_enuFrame", "src/geodesy/ENUConverter.cpp", "romea::core::ENUConverter::setAnchor", "setAnchor", {"matrix": "linear"}),
 ]
+# the property (= generated file gen/SrcFuns<unit>.v) each function belongs to: a function the translator cannot handle any more
+# breaks the tie of its own property only
+UNIT = {"src_toECEF": "C01", "src_ecefToWGS84": "C01", "src_enuFrame": "C02",
+        "src_between0And2Pi": "C10", "src_betweenMinusPiAndPi": "C10", "src_rotation2DToEulerAngle": "C10",
+        "src_rotation3DToEulerAngles": "C10"}          # everything else: C03
+
+
+def unit_of(cname):
+    return UNIT.get(cname, "C03")
+
+
 UNARY = {"sin": "nsin", "cos": "ncos", "tan": "ntan", "atan": "natan", "sqrt": "nsqrt", "log": "nln", "exp": "nexp",
          "abs": "nabs", "fabs": "nabs", "asin": "nasin", "acos": "nacos"}
 BINARY = {"atan2": "natan2", "pow": "npow", "fmod": "nfmod"}
@@ -590,14 +601,22 @@ def find_def(objs, mname, instantiation=False, param_type=None):
 
 
 def generate(repo="/repo"):
-    lines = ["(* GENERATED by translate/srcfuns.py from the clang AST of the current /repo sources. Do not edit. *)",
-             "From Coq Require Import ZArith.", "From Romea Require Import Num.", "", "Section Src.", "Context {T : Type} (N : NumOps T).", ""]
+    """returns ({unit: text}, [(unit, error)], summary).  A function that cannot be translated is left out of its unit's
+    file (the tie lemma about it then fails to compile) and reported; the other units are unaffected."""
+    head = ["(* GENERATED by translate/srcfuns.py from the clang AST of the current /repo sources. Do not edit. *)",
+            "From Coq Require Import ZArith.", "From Romea Require Import Num.", "", "Section Src.", "Context {T : Type} (N : NumOps T).", ""]
+    units = {}
+    for entry in FUNCS:
+        units.setdefault(unit_of(entry[0]), list(head))
     errors, summary = [], {}
-    known = {}
+    known_by_unit = {}
     _LOADED.clear()
     preload(repo)
     for entry in FUNCS:
         cname, src, flt, mname = entry[:4]
+        unit = unit_of(cname)
+        lines = units[unit]
+        known = known_by_unit.setdefault(unit, {})
         mode = entry[4] if len(entry) > 4 else None
         try:
             mode = dict(mode) if mode else None
@@ -639,26 +658,32 @@ def generate(repo="/repo"):
             lines.append("Definition %s %s : %s :=\n%s.\n" % (cname, params, rty, body))
             summary[cname] = f.free
         except Unsupported as e:
-            errors.append("%s (%s): %s" % (cname, src, e))
-    lines.append("End Src.")
-    return "\n".join(lines) + "\n", errors, summary
+            errors.append((unit, "%s (%s): %s" % (cname, src, e)))
+            lines.append("(* %s: NOT TRANSLATED from %s — %s *)\n" % (cname, src, str(e).replace("*)", "* )").replace("(*", "( *")[:300]))
+    texts = {}
+    for u, lines in units.items():
+        texts[u] = "\n".join(lines + ["End Src."]) + "\n"
+    return texts, errors, summary
 
 
-def generate_to(path, repo="/repo"):
-    text, errors, _ = generate(repo)
-    if errors:
-        return errors
-    old = open(path).read() if os.path.exists(path) else None
-    if old != text:
-        os.makedirs(os.path.dirname(path), exist_ok=True)
-        with open(path, "w") as f:
-            f.write(text)
-    return []
+def generate_to(gen_dir, repo="/repo"):
+    """writes gen/SrcFuns<unit>.v for every unit (only when the content changed); returns [(unit, error)]"""
+    texts, errors, _ = generate(repo)
+    os.makedirs(gen_dir, exist_ok=True)
+    for u, text in texts.items():
+        path = os.path.join(gen_dir, "SrcFuns%s.v" % u)
+        old = open(path).read() if os.path.exists(path) else None
+        if old != text:
+            with open(path, "w") as f:
+                f.write(text)
+    return errors
 
 
 if __name__ == "__main__":
     t, e, s = generate(os.environ.get("VERIF_REPO", "/repo"))
-    print(t)
+    for u in sorted(t):
+        print("(* ---- unit %s ---- *)" % u)
+        print(t[u])
     if e:
-        print("\n".join(e), file=sys.stderr)
+        print("\n".join("%s: %s" % x for x in e), file=sys.stderr)
         sys.exit(2)
